@@ -608,7 +608,10 @@ fn process_cpu() -> Duration {
     unsafe { libc::clock_gettime(libc::CLOCK_PROCESS_CPUTIME_ID, &mut ts) };
     Duration::new(ts.tv_sec as u64, ts.tv_nsec as u32)
 }
-/// is any thread of this process other than `me` in state R (running or waiting for a CPU)?
+/// is any thread of this process other than `me` in state R (running or waiting for a CPU) or D
+/// (uninterruptible: a page fault or file I/O served slowly on a machine short of memory -- seen as the
+/// dominant state of starved workers next to heavy batches)?  Only an *interruptible* sleep is a thread
+/// blocked in a user-level primitive.
 fn any_other_thread_runnable(me: i64) -> bool {
     let Ok(rd) = std::fs::read_dir("/proc/self/task") else { return true };
     for e in rd.flatten() {
@@ -618,7 +621,7 @@ fn any_other_thread_runnable(me: i64) -> bool {
         }
         if let Ok(stat) = std::fs::read_to_string(e.path().join("stat")) {
             if let Some(rest) = stat.rsplit(')').next() {
-                if rest.trim_start().starts_with('R') {
+                if rest.trim_start().starts_with('R') || rest.trim_start().starts_with('D') {
                     return true;
                 }
             }
